@@ -29,11 +29,19 @@ func message(t *rapid.T) []byte {
 	if rapid.Bool().Draw(t, "anylen") {
 		n = gen.UniformRange(t, 0, 300, "len")
 	}
+	if gen.Uniform(t, 8, "longmsg") == 0 {
+		// long messages: around the SHA-512 block multiples and the buffer sizes an implementation might pick (64 bytes of R||A
+		// go in front of the message), and anything up to 9000 bytes
+		n = gen.Pick(t, []int{960, 1023, 1024, 1984, 1985, 2047, 2048, 2049, 4032, 4033, 4095, 4096, 4097, 8128, 8192, 8193}, "longlen")
+		if rapid.Bool().Draw(t, "anylong") {
+			n = gen.UniformRange(t, 300, 9000, "longany")
+		}
+	}
 	return rapid.SliceOfN(rapid.Byte(), n, n).Draw(t, "msg")
 }
 
 func TestKeysAndSignatures(t *testing.T) {
-	s := rt.S("keys-and-signatures").SetRule("seed (incl. all-zero / all-ff) and message of length 0..300: NewKeyFromSeed, Sign, PrivateKey.Sign (crypto.Hash(0)), Public(), Seed() byte-equal to crypto/ed25519; PrivateKey.Sign with a real hash refuses like the standard library; the signature verifies under both verifiers. non-trivial = every case; distinct by (seed, message)")
+	s := rt.S("keys-and-signatures").SetRule("seed (incl. all-zero / all-ff) and message of length 0..300 (one in eight: 300..9000, around 1024/2048/4096/8192 and those minus the 64-byte R||A prefix): NewKeyFromSeed, Sign, PrivateKey.Sign (crypto.Hash(0)), Public(), Seed() byte-equal to crypto/ed25519; PrivateKey.Sign with a real hash refuses like the standard library; the signature verifies under both verifiers. non-trivial = every case; distinct by (seed, message)")
 	rt.Check(t, 1500, 300000, func(t *rapid.T) {
 		seed := gen.Bytes32().Draw(t, "seed")
 		msg := message(t)
